@@ -331,12 +331,25 @@ pub fn history(p: Profile, max_ops: usize) -> BoxedStrategy<History> {
             //   0: just the registration; 1: + an appointment of user 0 on channel 0;
             //   2: + its dispute mined and processed (a responded appointment to start from)
             let opening = match p {
-                Profile::Chain => prop_oneof![1 => Just(0u8), 2 => Just(1u8), 7 => Just(2u8)].boxed(),
+                // 3: a responded appointment on EVERY channel, all penalties confirmed in one block (a reorg then hits several
+                //    trackers at once)
+                Profile::Chain => prop_oneof![1 => Just(0u8), 2 => Just(1u8), 5 => Just(2u8), 2 => Just(3u8)].boxed(),
                 Profile::Expiry | Profile::Auth => prop_oneof![3 => Just(0u8), 2 => Just(1u8)].boxed(),
                 _ => prop_oneof![3 => Just(0u8), 4 => Just(1u8), 2 => Just(2u8)].boxed(),
             };
             (proptest::collection::vec(op(p, users, chans), 1..max_ops), opening, blob(p)).prop_map(move |(mut ops, opening, first_blob)| {
                 let mut pre = vec![Op::Register { u: 0 }];
+                if opening == 3 {
+                    pre.push(Op::Mine { take: Take::All, extra: (0..chans).map(|c| TxRef::Dispute(c, 0)).collect() });
+                    pre.push(Op::Poll);
+                    for c in 0..chans {
+                        pre.push(Op::Add { u: 0, chan: c, dvar: 0, blob: BlobKind::Valid { len: 0, var: 0 }, delay: 42, sig: SigKind::Good });
+                    }
+                    pre.push(Op::Mine { take: Take::All, extra: vec![] });
+                    pre.push(Op::Poll);
+                    pre.extend(ops.drain(..));
+                    return History { cfg, users, chans, txindex, ops: pre };
+                }
                 if opening >= 1 {
                     let b = if opening == 2 { BlobKind::Valid { len: 0, var: 0 } } else { first_blob };
                     pre.push(Op::Add { u: 0, chan: 0, dvar: 0, blob: b, delay: 42, sig: SigKind::Good });
